@@ -262,11 +262,9 @@ where subsPanics (inLoop : Bool) : Subs → List Nat → List String
     (if sb.any (· ≥ bits.length) then ["subbit-out-of-range"] else []) ++
       gatePanics inLoop g (mapBits bits sb) ++ subsPanics inLoop rest bits
 
-def opPanics (nq : Nat) : Op → List String
+def opPanics (_nq : Nat) : Op → List String
   | .gate g bits => gatePanics false g bits
   | .cond _ _ g bits => gatePanics false g bits
-  | .resetAll => if nq = 0 then ["resetall-no-qubits"] else []
-  | .barrier qs => if qs.isEmpty then ["empty-barrier"] else []
   | _ => []
 
 /-- Index of the operation at which the MODEL's export panics (attribution of a panic to an operation;
@@ -316,8 +314,12 @@ def specCheck (line : String) : String :=
             | none => "fail unreadable the text is not a qcircuit grid over the known symbols"
             | some d =>
               -- attribution only: which operation drew a cell, according to the model's ghost provenance
+              -- (used only if the model prints the same document: otherwise the model says nothing about
+              -- the implementation's grid and the reader's own lenient matching attributes the failure)
               let cols : List Column := match exportSt c with
-                | .ok s => s.rcols.reverse
+                | .ok s => (match code s with
+                  | .ok t => if readDoc t = some d then s.rcols.reverse else []
+                  | _ => [])
                 | _ => []
               let hint (col row : Nat) : Option Nat :=
                 match (cols[col]?).bind (·[row]?) with
